@@ -246,6 +246,12 @@ func TestVerifC04(t *testing.T) {
 				return
 			}
 			first := vCanonOrdered(r1)
+			// Normalize of the SAME bytes between the Match calls (the natural use: match,
+			// then normalize for display), and its result must be stable: what Normalize
+			// returned must not change when later calls are made
+			n1 := c.Normalize(append([]byte{}, in...))
+			n1sha := vSha(n1)
+			n1copy := append([]byte{}, n1...)
 			// a seeded schedule of other calls on the same classifier
 			for j, n := 0, 1+r.Intn(3); j < n; j++ {
 				o := qs[r.Intn(len(qs))]
@@ -280,6 +286,14 @@ func TestVerifC04(t *testing.T) {
 						c.MatchFrom(strings.NewReader(f))
 					}
 				}
+			}
+			if vSha(n1) != n1sha {
+				cs.violation("normalize-result-changed", "the slice returned by Normalize changed while other calls were made (it aliases internal state)")
+				return
+			}
+			if n2 := c.Normalize(append([]byte{}, in...)); !bytes.Equal(n2, n1copy) {
+				cs.violation("normalize-not-deterministic", "Normalize of the same bytes returned different text after other calls (lengths %d vs %d)", len(n1copy), len(n2))
+				return
 			}
 			flood()
 			r2, ok := call(cs, in, 2)
